@@ -10,7 +10,11 @@ import sys, re
 src = open(sys.argv[2] + '/tools/mutant_matrix.py').read()
 ns = {}
 exec(src[src.index('RELATED = {'):src.index('\n\n\ndef main')], ns)
-print(' '.join(ns['RELATED'][sys.argv[1][:3]]))
+import json
+key = sys.argv[1][:3]
+if key not in ns['RELATED']:
+    key = json.load(open(sys.argv[2] + '/seeded/' + sys.argv[1] + '/meta.json'))['property'][:3]
+print(' '.join(ns['RELATED'][key]))
 PY
 )
 $root/tools/try_mutant.sh $name $rel 2>&1 | grep -v "^VIOLATION" | cut -c1-260
